@@ -137,8 +137,8 @@ impl Check for C03 {
     fn generate(r: &mut Rng, tier: Tier) -> Case {
         let mut c = gen::draw_cfg(r, tier);
         // triples are kept small so that the isomorphism search stays cheap
-        c.max_extra_nodes = c.max_extra_nodes.min(if c.large { 14 } else { 4 });
-        c.max_edges = c.max_edges.min(if c.large { 8 } else { 4 });
+        c.max_extra_nodes = c.max_extra_nodes.min(if c.huge { 90 } else if c.large { 14 } else { 4 });
+        c.max_edges = c.max_edges.min(if c.huge { 70 } else if c.large { 8 } else { 4 });
         let (f, g, h) = gen::gen_triple(r, &c);
         let (p, q) = gen::gen_pair(r, &c);
         let mut small = c.clone();
@@ -158,6 +158,8 @@ impl Check for C03 {
         }
         ex.workload_fp = fp.0;
         ex.nontrivial = c.f.n() + c.g.n() + c.h.n() > 0 && c.f.m() + c.g.m() + c.h.m() + c.f.t.len() + c.g.t.len() > 0;
+        ex.probe_if(c.f.n() >= 64 || c.f.m() >= 64 || c.f.s.len() >= 64 || c.f.t.len() >= 64, "size_64_or_more");
+        ex.probe_if(c.f.n() >= 256 || c.f.m() >= 256 || c.f.s.len() >= 256 || c.f.t.len() >= 256, "size_256_or_more");
         ex.probe_if(c.f.e.iter().any(|e| e.s.iter().any(|v| e.t.contains(v))), "self_looping_edge_cyclic");
         ex.probe_if(!c.a.is_empty() && !c.b.is_empty() && !c.c.is_empty(), "hexagon_all_objects_nonempty");
 
